@@ -3,6 +3,11 @@ import pv
 from diffcheck import Spec, run_spec
 
 HARNESSES = [("h_cookie", "asan", ())]
+
+# cookie texts that are not a cookie-pair [; attributes] (RFC 6265 4.1.1: cookie-name is a non-empty token, a cookie-pair has its
+# '=', cookie-octets exclude control bytes, blanks, CR and LF; Max-Age is 1*DIGIT) and that Cookie::fromRaw accepts
+# (open finding C17-malformed-accepted; named text by text)
+MALFORMED_ACCEPTED = [b"=v", b"lang; Path=/", b"; Path=/", b"SID=v; Max-Age=", b"\x01=b", b"a b=c", b"a=b\r\n"]
 OCT = b"abcXYZ0189-_.~!#$%&'()*+/:<>?@[]^`{|} "
 
 
@@ -73,6 +78,7 @@ class C17(Spec):
                     del b[i]
                 txt = bytes(b)
             cases.append("C " + pv.hexs(txt))
+        cases = ["C " + pv.hexs(w) for w in MALFORMED_ACCEPTED] + cases
         for _ in range(n // 2):
             pairs = []
             for _k in range(rng.randint(0, 8)):
@@ -96,6 +102,8 @@ class C17(Spec):
             back, built = impl[2:].split(" | ")
             if back != built:
                 return "cookie does not survive write/parse: built '%s' parsed back '%s'" % (built, back)
+        elif t[0] == "C" and impl.startswith("C ok") and pv.unhex(t[1]) in MALFORMED_ACCEPTED:
+            return "malformed cookie text was accepted instead of being rejected with an error: %r -> %s" % (pv.unhex(t[1]), impl)
         elif t[0] == "J" and impl.startswith("J ok"):
             pre, post = impl[5:].split("| post")
             pre, post = pre.split(), post.split()
